@@ -386,6 +386,21 @@ _DEREF_CACHE = {}
 _KEEP_CACHE = {}
 
 
+def _ctor_keeps(g, ai):
+    """g stores its parameter ai into a field of the object it returns (a constructor that takes
+    ownership when it succeeds)"""
+    if ai >= len(g.params):
+        return False
+    pn = g.params[ai][0]
+    rets = set(g.canon(g.ch(r_)[0], subst=False) for r_ in g.find("Return") if g.ch(r_))
+    for s_ in paths.stores(g):
+        if s_["kind"] == "Member" and s_["op"] == "=" and s_["rhs"] is not None and g.canon(s_["rhs"], subst=False) == pn:
+            base = s_["path"].split("->")[0]
+            if base in rets or any(rv.endswith(base) or rv.endswith(base + ")") for rv in rets):
+                return True
+    return False
+
+
 def _keeps_param(P, g, ai, depth=0):
     """the function may keep its ai-th parameter beyond the call: stores it into memory, returns it,
     releases it, or passes it on to a function that does (two levels; unknown callees keep)"""
@@ -1103,6 +1118,7 @@ def unwind_rule(ctx, P, fns, floor=10, only_readers=True, extra_allocs=(), extra
         for d, allocs in sorted(owned.items()):
             name = d.split("@")[0]
             frees = []
+            keepers = []
             escapes = False
             for c in f.calls():
                 cal = f.nodes[c].get("callee")
@@ -1117,6 +1133,26 @@ def unwind_rule(ctx, P, fns, floor=10, only_readers=True, extra_allocs=(), extra
                                 continue
                             if not tg or any(_keeps_param(P, g, ai) for g in tg):
                                 escapes = True
+                                if tg and any(_ctor_keeps(g, ai) for g in tg):
+                                    keepers.append(c)
+            # kept by a constructor: once its result is known to exist the object owns the buffer, and
+            # releasing the buffer as well (on a later error path) leaves the object with a dangling
+            # pointer and releases twice when the object goes
+            for c in keepers:
+                par = f.up(c)
+                while par is not None and f.k(par) in ("Paren", "ICast", "Cast"):
+                    par = f.parent[par]
+                if par is None or f.k(par) not in ("Assign", "Var"):
+                    continue
+                R = f.canon(f.ch(par)[0], subst=False) if f.k(par) == "Assign" else f.nodes[par]["name"]
+                failed = set(paths.guard_edges(f, lambda fn, cc, pol, R=R: paths.cond_atoms(fn, cc, pol, subst=False) == (R, False)))
+                if not failed:
+                    continue
+                for n, fr in enumerate(frees):
+                    if f.cfg.path_exists(paths.pos_of(f, c), lambda e, fr=fr: e == fr, removed_edges=failed):
+                        ctx.bad(r, key(f, "%s:kept-by:%s#%d" % (name, f.nodes[c].get("callee"), n)), f.where(fr), "`%s` was handed to %s, which keeps it in the object it returns (`%s`); it is released here on a path where that object exists: the object is left with a dangling pointer and the buffer is released again with it" % (name, f.nodes[c].get("callee"), R))
+                    else:
+                        ctx.check(r, True, key(f, "%s:kept-by:%s#%d" % (name, f.nodes[c].get("callee"), n)), f.where(fr), "")
             for s in paths.stores(f):
                 if s["rhs"] is not None and paths.local_of(f, s["rhs"]) == d and s["kind"] in ("Member", "Un", "Subscript"):
                     escapes = True
